@@ -10,6 +10,11 @@ package clos
 // C17, package-wide: a function that takes a sync lock itself has released it
 // again on every normal return path (directly or through a deferred call).
 //@ every-function clos lock-balance
+// C17, package-wide: a function that asks for the process-wide printer (slip.DefaultPrinter()) works on
+// a copy: it never stores through that pointer and never hands it to a function that stores to Printer
+// fields. Print settings a routine binds stay its own; what one routine prints cannot change what
+// another prints.
+//@ every-function clos shared-printer-kept
 
 // C07, package-wide: a function that evaluates Lisp forms itself forwards the
 // return-from / go marker an evaluation hands back: nothing more is evaluated
@@ -108,3 +113,13 @@ package clos
 //@   property C12
 //@   ensures by-name: result0 == (exists j :: 0 <= j && j < len(c.inherit) && Name(c.inherit[j]) == Name(sc))
 //@   loop rangeindex: invariant none-so-far: forall j :: (0 <= j && j <= rangeindex) ==> Name(c.inherit[j]) != Name(sc)
+
+// C12: every evaluation of a defclass form that returns has (re)defined the class from the form it was
+// given - there is no path that keeps an existing class because the new definition "looks the same"
+// (two forms that compare equal can still differ: 1 and 1.0 are equal numbers, an initform of the
+// one is not an initform of the other).
+//@ func clos.(*Defclass).Call
+//@   property C12
+//@   count-calls DefStandardClass
+//@   ensures every-evaluation-defines: $ncall_DefStandardClass == 1
+//@   on-call DefStandardClass from-this-form: $arg0 == s && $arg2 == supers && $arg3 == slotSpecs
